@@ -1014,3 +1014,158 @@ MUTANTS += [
     {"name": "fresh-module-level-scheme-function-inverts-the-websocket-pair", "expect": "R12.8", "edits": _fresh_mutant(
         "fresh-scheme-split-in-a-module-level-function", "\"wss\" if secure else \"ws\"", "\"ws\" if secure else \"wss\"")},
 ]
+
+
+# ---------------------------------------------------------------------
+# third detection round: R12.12 (safe sets of the quote calls that make redirect path text), R12.13 (append_unknown on
+# the alias values)
+C = "routing/converters.py"
+R = "routing/rules.py"
+_SAFE = "\"!$&'()*+,/:;=@\""
+_H_QUOTE = f"            new_path = quote(e.path_info, safe={_SAFE})\n"
+_C_QUOTE = f"        return quote(str(value), safe={_SAFE})\n"
+_R_QUOTE = f"                opl.append((False, quote(data, safe={_SAFE})))\n"
+_ALIAS_BUILD = (
+    "        url = self.build(\n"
+    "            endpoint, values, method, append_unknown=False, force_external=True\n"
+    "        )\n"
+)
+_PB_CALL = "                build_rv = rule.build(values, append_unknown)\n"
+_MAP_CONST_AT = "if t.TYPE_CHECKING:\n"
+_ADAPTER_HOST = "    def get_host(self, domain_part: str | None) -> str:\n"
+
+_DET3 = {
+    "det3-handler-safe-set-in-a-module-constant": [
+        (M, _MAP_CONST_AT, f"_PATH_SAFE = {_SAFE}\n\n" + _MAP_CONST_AT),
+        (M, _H_QUOTE, "            new_path = quote(e.path_info, safe=_PATH_SAFE)\n"),
+    ],
+    "det3-handler-safe-set-concatenated-from-two-constants": [
+        (M, _MAP_CONST_AT, "_SUB_DELIMS = \"!$&'()*+,;=\"\n_PATH_SAFE = _SUB_DELIMS + \"/:@\"\n\n" + _MAP_CONST_AT),
+        (M, _H_QUOTE, "            new_path = quote(e.path_info, safe=_PATH_SAFE)\n"),
+    ],
+    "det3-requote-helper-with-safe-default-parameter": [
+        (M, _MAP_CONST_AT, f"_PATH_SAFE = {_SAFE}\n\n\ndef _requote_path(text: str, safe: str = _PATH_SAFE) -> str:\n    return quote(text, safe=safe)\n\n\n" + _MAP_CONST_AT),
+        (M, _H_QUOTE, "            new_path = _requote_path(e.path_info)\n"),
+    ],
+    "det3-requote-method-safe-passed-positionally-from-a-class-constant": [
+        (M, _ADAPTER_HOST, f"    _path_safe = {_SAFE}\n\n    def _requote(self, text: str) -> str:\n        return quote(text, self._path_safe)\n\n" + _ADAPTER_HOST),
+        (M, _H_QUOTE, "            new_path = self._requote(e.path_info)\n"),
+    ],
+    "det3-handler-quote-inlined-into-the-redirect-call": [
+        (M, _H_QUOTE + "            raise RequestRedirect(\n                self.make_redirect_url(new_path, query_args)\n            ) from None\n",
+         f"            raise RequestRedirect(\n                self.make_redirect_url(\n                    quote(e.path_info, safe={_SAFE}), query_args\n                )\n            ) from None\n"),
+    ],
+    "det3-converter-safe-set-in-a-class-constant": [
+        (C, "    def to_url(self, value: t.Any) -> str:\n        # safe = https://url.spec.whatwg.org/#url-path-segment-string\n" + _C_QUOTE,
+         f"    #: safe = https://url.spec.whatwg.org/#url-path-segment-string\n    url_safe = {_SAFE}\n\n    def to_url(self, value: t.Any) -> str:\n        text = str(value)\n        return quote(text, safe=self.url_safe)\n"),
+    ],
+    "det3-rule-builder-safe-set-in-a-module-constant": [
+        (R, "@dataclass\nclass RulePart:", f"_STATIC_SAFE = {_SAFE}\n\n\n@dataclass\nclass RulePart:"),
+        (R, _R_QUOTE, "                static = quote(data, safe=_STATIC_SAFE)\n                opl.append((False, static))\n"),
+    ],
+    "det3-alias-build-flags-in-locals": [
+        (M, _ALIAS_BUILD, "        keep_unknown = False\n        url = self.build(\n            endpoint, values, method, force_external=True, append_unknown=keep_unknown\n        )\n"),
+    ],
+    "det3-alias-build-flags-positional": [
+        (M, _ALIAS_BUILD, "        url = self.build(endpoint, values, method, True, False)\n"),
+    ],
+    "det3-alias-build-through-a-forwarding-helper-and-keyword-at-the-rule": [
+        (M, _ADAPTER_HOST, "    def _external_url(self, endpoint: t.Any, values: t.Mapping[str, t.Any], method: str, unknown: bool) -> str:\n"
+                           "        return self.build(endpoint, values, method, force_external=True, append_unknown=unknown)\n\n" + _ADAPTER_HOST),
+        (M, _ALIAS_BUILD, "        url = self._external_url(endpoint, values, method, False)\n"),
+        (M, _PB_CALL, "                build_rv = rule.build(values, append_unknown=append_unknown)\n"),
+    ],
+}
+TWINS += [{"name": k, "edits": v} for k, v in _DET3.items()]
+
+
+def _det3_mutant(twin: str, old: str, new: str) -> list:
+    hits = sum(e[2].count(old) for e in _DET3[twin])
+    assert hits == 1, (twin, old, hits)
+    return [(rel, o, n.replace(old, new)) for rel, o, n in _DET3[twin]]
+
+
+_SAFE_Q = "\"!$&'()*+,/:;=?@\""
+MUTANTS += [
+    {"name": "det3-handler-safe-set-gains-question-mark", "expect": "R12.12", "edits": [(M, _H_QUOTE, f"            new_path = quote(e.path_info, safe={_SAFE_Q})\n")]},
+    {"name": "det3-handler-safe-set-loses-the-slash", "expect": "R12.12", "edits": [(M, _H_QUOTE, "            new_path = quote(e.path_info, safe=\"!$&'()*+,:;=@\")\n")]},
+    {"name": "det3-handler-module-constant-gains-hash", "expect": "R12.12", "edits": _det3_mutant(
+        "det3-handler-safe-set-in-a-module-constant", f"_PATH_SAFE = {_SAFE}", "_PATH_SAFE = \"!#$&'()*+,/:;=@\"")},
+    {"name": "det3-concatenated-safe-set-gains-percent", "expect": "R12.12", "edits": _det3_mutant(
+        "det3-handler-safe-set-concatenated-from-two-constants", "_SUB_DELIMS + \"/:@\"", "_SUB_DELIMS + \"%/:@\"")},
+    {"name": "det3-requote-helper-default-gains-question-mark", "expect": "R12.12", "edits": _det3_mutant(
+        "det3-requote-helper-with-safe-default-parameter", f"_PATH_SAFE = {_SAFE}", f"_PATH_SAFE = {_SAFE_Q}")},
+    {"name": "det3-requote-method-class-constant-gains-question-mark", "expect": "R12.12", "edits": _det3_mutant(
+        "det3-requote-method-safe-passed-positionally-from-a-class-constant", f"_path_safe = {_SAFE}", f"_path_safe = {_SAFE_Q}")},
+    {"name": "det3-inlined-quote-uses-the-query-safe-set", "expect": "R12.12", "edits": _det3_mutant(
+        "det3-handler-quote-inlined-into-the-redirect-call", f"safe={_SAFE}", f"safe={_SAFE_Q}")},
+    {"name": "det3-converter-to-url-safe-set-gains-question-mark", "expect": "R12.12", "edits": [(C, _C_QUOTE, f"        return quote(str(value), safe={_SAFE_Q})\n")]},
+    {"name": "det3-converter-class-constant-gains-hash", "expect": "R12.12", "edits": _det3_mutant(
+        "det3-converter-safe-set-in-a-class-constant", f"url_safe = {_SAFE}", "url_safe = \"!#$&'()*+,/:;=@\"")},
+    {"name": "det3-rule-builder-static-text-safe-set-gains-question-mark", "expect": "R12.12", "edits": [(R, _R_QUOTE, f"                opl.append((False, quote(data, safe={_SAFE_Q})))\n")]},
+    {"name": "det3-rule-builder-module-constant-gains-percent", "expect": "R12.12", "edits": _det3_mutant(
+        "det3-rule-builder-safe-set-in-a-module-constant", f"_STATIC_SAFE = {_SAFE}", "_STATIC_SAFE = \"!$%&'()*+,/:;=@\"")},
+    {"name": "det3-alias-build-without-the-unknown-flag", "expect": "R12.13", "edits": [(M, _ALIAS_BUILD, "        url = self.build(endpoint, values, method, force_external=True)\n")]},
+    {"name": "det3-alias-build-flag-local-true", "expect": "R12.13", "edits": _det3_mutant(
+        "det3-alias-build-flags-in-locals", "keep_unknown = False", "keep_unknown = True")},
+    {"name": "det3-alias-build-positional-stops-before-the-flag", "expect": "R12.13", "edits": _det3_mutant(
+        "det3-alias-build-flags-positional", "method, True, False)", "method, True)")},
+    {"name": "det3-forwarding-helper-called-with-true", "expect": "R12.13", "edits": _det3_mutant(
+        "det3-alias-build-through-a-forwarding-helper-and-keyword-at-the-rule", "self._external_url(endpoint, values, method, False)", "self._external_url(endpoint, values, method, True)")},
+    {"name": "det3-partial-build-does-not-hand-the-flag-to-the-rule", "expect": "R12.13", "edits": [(M, _PB_CALL, "                build_rv = rule.build(values)\n")]},
+]
+
+# shapes of the fresh refactorings written for the stress pass of R12.12 / R12.13 (all silent at first run)
+_DET3B = {
+    "det3-rules-module-level-quote-helper-with-literal-default": [
+        (R, "@dataclass\nclass RulePart:", f"def _quote_static(text: str, safe: str = {_SAFE}) -> str:\n    return quote(text, safe=safe)\n\n\n@dataclass\nclass RulePart:"),
+        (R, _R_QUOTE, "                opl.append((False, _quote_static(data)))\n"),
+    ],
+    "det3-converters-module-level-quote-helper-and-own-to-url": [
+        (C, "class BaseConverter:", f"_URL_SAFE = {_SAFE}\n\n\ndef _quote_value(value: t.Any, safe: str = _URL_SAFE) -> str:\n    return quote(str(value), safe=safe)\n\n\nclass BaseConverter:"),
+        (C, _C_QUOTE, "        return _quote_value(value)\n"),
+    ],
+    "det3-adapter-static-requote-method-with-literal-default": [
+        (M, _ADAPTER_HOST, f"    @staticmethod\n    def _requote_path(path_info: str, safe: str = {_SAFE}) -> str:\n        return quote(path_info, safe=safe)\n\n" + _ADAPTER_HOST),
+        (M, _H_QUOTE, "            new_path = self._requote_path(e.path_info)\n"),
+    ],
+    "det3-handler-safe-set-in-a-local": [
+        (M, _H_QUOTE, f"            path_safe = {_SAFE}\n            new_path = quote(e.path_info, safe=path_safe)\n"),
+    ],
+}
+TWINS += [{"name": k, "edits": v} for k, v in _DET3B.items()]
+_DET3.update(_DET3B)
+MUTANTS += [
+    {"name": "det3-rules-quote-helper-default-gains-question-mark", "expect": "R12.12", "edits": _det3_mutant(
+        "det3-rules-module-level-quote-helper-with-literal-default", f"safe: str = {_SAFE}", f"safe: str = {_SAFE_Q}")},
+    {"name": "det3-converters-quote-helper-constant-gains-hash", "expect": "R12.12", "edits": _det3_mutant(
+        "det3-converters-module-level-quote-helper-and-own-to-url", f"_URL_SAFE = {_SAFE}", "_URL_SAFE = \"!#$&'()*+,/:;=@\"")},
+    {"name": "det3-static-requote-method-default-gains-question-mark", "expect": "R12.12", "edits": _det3_mutant(
+        "det3-adapter-static-requote-method-with-literal-default", f"safe: str = {_SAFE}", f"safe: str = {_SAFE_Q}")},
+    {"name": "det3-handler-local-safe-set-gains-question-mark", "expect": "R12.12", "edits": _det3_mutant(
+        "det3-handler-safe-set-in-a-local", f"path_safe = {_SAFE}", f"path_safe = {_SAFE_Q}")},
+]
+
+_DET3C = {
+    "det3-quote-through-the-parse-module-alias": [
+        (M, "from urllib.parse import quote\n", "from urllib import parse as _up\nfrom urllib.parse import quote\n"),
+        (M, _H_QUOTE, f"            new_path = _up.quote(e.path_info, safe={_SAFE})\n"),
+    ],
+    "det3-alias-build-flags-from-a-dict-local": [
+        (M, _ALIAS_BUILD, "        opts = dict(append_unknown=False, force_external=True)\n        url = self.build(endpoint, values, method, **opts)\n"),
+    ],
+    "det3-requote-function-safe-set-passed-by-the-handler": [
+        (M, _MAP_CONST_AT, f"_PATH_SAFE = {_SAFE}\n\n\ndef _requote(text: str, safe: str) -> str:\n    return quote(text, safe=safe)\n\n\n" + _MAP_CONST_AT),
+        (M, _H_QUOTE, "            new_path = _requote(e.path_info, safe=_PATH_SAFE)\n"),
+    ],
+}
+TWINS += [{"name": k, "edits": v} for k, v in _DET3C.items()]
+_DET3.update(_DET3C)
+MUTANTS += [
+    {"name": "det3-parse-module-quote-gains-hash", "expect": "R12.12", "edits": _det3_mutant(
+        "det3-quote-through-the-parse-module-alias", f"_up.quote(e.path_info, safe={_SAFE})", "_up.quote(e.path_info, safe=\"!#$&'()*+,/:;=@\")")},
+    {"name": "det3-dict-local-flag-true", "expect": "R12.13", "edits": _det3_mutant(
+        "det3-alias-build-flags-from-a-dict-local", "dict(append_unknown=False", "dict(append_unknown=True")},
+    {"name": "det3-handler-passes-the-query-safe-set-to-the-requote-function", "expect": "R12.12", "edits": _det3_mutant(
+        "det3-requote-function-safe-set-passed-by-the-handler", f"_PATH_SAFE = {_SAFE}", f"_PATH_SAFE = {_SAFE_Q}")},
+]
